@@ -17,6 +17,8 @@ def run_bundle(bundle, root='/repo', only=None, timeout_ms=60000):
         if D.contracts[q].assumed:
             continue
         eng.verify(q)
+    if hasattr(mod, 'extra_obligations') and not only:
+        eng.obls += mod.extra_obligations(repo, D, None)
     gen = time.time() - t0
     t1 = time.time()
     discharge(eng.obls, timeout_ms)
